@@ -34,6 +34,10 @@ ALIAS_POOL = ["ta", "tb", "x1", "zz", "lib", "ci", "aa", "t9", "qa", "bb", "cc",
 KEY_POOL = ["al0", "AL1", "zq2", "Bq3", "k-4", "K_5", "mm6", "Zz7", "a8", "Y9", "w10", "W11", "e12", "E13", "dd14", "Dd15", "r16", "R17"]
 
 
+DOC_POOL = [["Targets that build the frontend."], ["Targets that deploy to staging.", "Use with care."], ["Release helpers."],
+            ["Runs \"everything\" twice."], ["Database tasks:", "", "migrate, seed, dump."], ["CI entry points"]]
+
+
 def bsorted(l, key=lambda x: x):
     return sorted(l, key=lambda x: key(x).encode())
 
@@ -166,7 +170,16 @@ def gen_project(rng, idx, shape=None):
     used_names = {e[1] for _, e in alias_entries if e[0] in ("sel", "sel2") and e[1] in go_choice}
     if default and default[0] in ("sel", "sel2") and default[1] in go_choice:
         used_names.add(default[1])
-    return {"name": "p%04d" % idx, "shape": shape, "files": fnames, "specs": specs, "pkgs": pkgs, "local": local,
+    # package comments: 0, 1, 2, 3+ files carry one (go/doc joins them in sorted file-name order), different texts,
+    # sometimes an empty one, line or block style
+    ndoc = min(nfiles, rng.choice([0, 1, 2, 2, 3, 3, 4, 6]))
+    docs = {}
+    texts = rng.sample(DOC_POOL, len(DOC_POOL))
+    for f in rng.sample(fnames, ndoc):
+        docs[f] = {"style": rng.choice(["line", "line", "block"]), "lines": texts.pop()}
+    if docs and rng.random() < 0.35:
+        docs[rng.choice(sorted(docs))] = {"style": "empty", "lines": []}
+    return {"name": "p%04d" % idx, "shape": shape, "files": fnames, "specs": specs, "pkgs": pkgs, "local": local, "docs": docs,
             "holder": holder, "holder_imports": {n: go_choice[n] for n in sorted(used_names)},
             "aliases": alias_entries, "default": default, "features": features}
 
@@ -198,7 +211,16 @@ def render(pr, order=None):
     mod = "example.test/" + pr["name"]
     out = {}
     for f in pr["files"]:
-        lines = ["//go:build mage", "// +build mage", "", "package main", ""]
+        lines = ["//go:build mage", "// +build mage", ""]
+        doc = pr.get("docs", {}).get(f)
+        if doc:
+            if doc["style"] == "empty":
+                lines.append("//")
+            elif doc["style"] == "block":
+                lines.append("/*\n" + "\n".join(doc["lines"]) + "\n*/")
+            else:
+                lines += [("// " + l) if l else "//" for l in doc["lines"]]
+        lines += ["package main", ""]
         imps = []
         if pr["local"][f]["ns"]:
             imps.append('\t"github.com/magefile/mage/mg"')
@@ -269,7 +291,9 @@ def competing(pr):
             "same_path_and_alias_twice": same_pair,
             "paths_with_two_aliases": sum(1 for a in named.values() if len(a) > 1),
             "named_and_root": len(set(named) & set(roots)),
-            "files": len(pr["files"]), "aliases": len(pr["aliases"])}
+            "files": len(pr["files"]), "aliases": len(pr["aliases"]),
+            "files_with_package_comment": len(pr.get("docs", {})),
+            "nonempty_package_comments": sum(1 for d in pr.get("docs", {}).values() if d["style"] != "empty")}
 
 
 # ---------------------------------------------------------------- reading the generated file back
@@ -300,7 +324,9 @@ def read_main(text):
     i_for = text.index("for x := 0; x < len(args.Args); {")
     i_def = text.rindex("if len(args.Args) < 1 {", 0, i_for)
     dflt = call_pkg(text[i_def:i_for]) or ""
-    return {"imports": imports, "targets": targets, "aliases": aliases, "default": dflt}
+    m = re.search(r'_fmt\.Println\(("(?:[^"\\]|\\.)*") \+ "\\n"\)', text)
+    desc = json.loads(projlib._goq(m.group(1))) if m else ""
+    return {"imports": imports, "targets": targets, "aliases": aliases, "default": dflt, "desc": desc}
 
 
 # ---------------------------------------------------------------- Coq terms
@@ -324,7 +350,8 @@ def c_pair(a, b):
 
 def case_term(pr, ans, proj, fobs):
     mod = "example.test/" + pr["name"]
-    files = coq_list(["{| f_name := %s; f_specs := %s |}" % (coq_str(f), coq_list(
+    docs = ans.get("docs") or {}
+    files = coq_list(["{| f_name := %s; f_doc := %s; f_specs := %s |}" % (coq_str(f), coq_opt(None if docs.get(f) is None else coq_str(docs[f])), coq_list(
         ["{| sp_path := %s; sp_alias := %s |}" % (coq_str(mod + "/" + s["path"]), coq_str(s["alias"])) for s in pr["specs"][f]])) for f in pr["files"]])
     funcs = coq_list([c_pf(r, n) for r, n in ans["locals"]])
     env = coq_list([c_pair(coq_str(p), c_pair(coq_str(v["name"]), coq_list([c_pf(r, n) for r, n in (v.get("funcs") or [])])))
@@ -336,12 +363,13 @@ def case_term(pr, ans, proj, fobs):
                                 coq_list([c_pair(coq_str(t), coq_str(p)) for t, p in i["funcs"]])) for i in proj["imports"]])
         al = coq_list([c_pair(c_pair(coq_str(k), coq_str(t)), coq_str(p)) for k, t, p in proj["aliases"]])
         d = "None" if proj["default"] is None else "(Some %s)" % c_pair(coq_str(proj["default"][0]), coq_str(proj["default"][1]))
-        obs = "(Some {| o_imports := %s; o_funcs := %s; o_aliases := %s; o_default := %s |})" % (
-            imps, coq_list([coq_str(x) for x in proj["funcs"]]), al, d)
+        obs = "(Some {| o_desc := %s; o_imports := %s; o_funcs := %s; o_aliases := %s; o_default := %s |})" % (
+            coq_str(proj.get("desc", "")), imps, coq_list([coq_str(x) for x in proj["funcs"]]), al, d)
     if fobs is None:
         fo = "None"
     else:
-        fo = "(Some {| fo_imports := %s; fo_targets := %s; fo_aliases := %s; fo_default := %s |})" % (
+        fo = "(Some {| fo_desc := %s; fo_imports := %s; fo_targets := %s; fo_aliases := %s; fo_default := %s |})" % (
+            coq_str(fobs["desc"]),
             coq_list([c_pair(coq_str(u), coq_str(p)) for u, p in fobs["imports"]]),
             coq_list([c_pair(coq_str(t), coq_str(p)) for t, p in fobs["targets"]]),
             coq_list([c_pair(coq_str(k), coq_str(t)) for k, t in fobs["aliases"]]), coq_str(fobs["default"]))
@@ -456,7 +484,7 @@ def run(ctx):
         comp = competing(pr)
         comp_all.append(dict(comp, project=pr["name"], shape=pr["shape"], features=pr["features"]))
         case = {"project": pr, "runs_a": runs_a, "runs_b": runs_b, "reps": reps, "nprocs": nprocs}
-        ncomp = comp["named_pairs_equal_name"] + comp["root_pairs_equal_name"] + comp["paths_with_two_aliases"]
+        ncomp = comp["named_pairs_equal_name"] + comp["root_pairs_equal_name"] + comp["paths_with_two_aliases"] + (comp["nonempty_package_comments"] >= 2)
         if ncomp:
             nontriv += 1
         # ---- oracle 1: the bytes of the generated file
@@ -498,7 +526,7 @@ def run(ctx):
             variants = []
             for js, occ in seen.items():
                 p = json.loads(js)
-                variants.append({"association": [(i["path"], i["unique"], i["alias"]) for i in p["imports"]], "aliases": p["aliases"],
+                variants.append({"description": p.get("desc", ""), "association": [(i["path"], i["unique"], i["alias"]) for i in p["imports"]], "aliases": p["aliases"],
                                  "default": p["default"], "err": p["err"], "err_text": errtexts.get(js, ""), "seen_in(process,count,first_rep)": occ})
             ctx.violation({"kind": "oracle", "clause": "parse.PrimaryPackage + sort gives %d different results for the same magefiles over %d repetitions in %d processes" % (len(seen), sum(o["reps"] for o in ops), nprocs),
                            "variants": variants[:4]}, case=case)
@@ -524,7 +552,7 @@ def run(ctx):
         items.append(case_term(pr, ops[0], proj, fobs))
         item_proj.append((pr, proj, fobs))
         if pi < 2:
-            ctx.sample({"project": pr["name"], "competing": comp, "association": [(i["path"], i["unique"]) for i in proj["imports"]],
+            ctx.sample({"project": pr["name"], "competing": comp, "description": proj.get("desc", ""), "association": [(i["path"], i["unique"]) for i in proj["imports"]],
                         "aliases": proj["aliases"][:4], "default": proj["default"]})
     ctx.log("oracle done")
     header = "From Mage Require Import Base.Strs Model.Gen Run.eval_C18.\n"
@@ -540,7 +568,7 @@ def run(ctx):
     cov["evaluations"] = tot_runs + tot_reps
     cov["distinct_nontrivial"] = nontriv
     cov["rule"] = ("one evaluation = one generation of the main file (a fresh `mage -keep -l` process, or one in-process parse.PrimaryPackage+sort(+render) repetition); "
-                   "distinct = generated projects; non-trivial = at least one competing pair (equal package names among named or among root imports, or one path with two aliases)")
+                   "distinct = generated projects; non-trivial = at least one competing pair (equal package names among named or among root imports, one path with two aliases, or two non-empty package comments)")
     cov["projects"] = len(projects)
     cov["fresh_process_runs"] = tot_runs
     cov["fresh_runs_per_project"] = {"dir": runs_a, "copy_reverse_creation_order_other_dirname": runs_b}
